@@ -143,7 +143,8 @@ package auth
 //@ func Authenticator.rebuildCollectionChannels
 //@   safety on
 //@   requires auth != nil && prKnown(princ) && collsWF(prColls(princ))
-//@   modifies c03Computed, roleImpl.CollectionsAccess, elems(prColls(princ)), elems(prColls(princ)[scope]), elems(pcaHistory(rcCA(princ, scope, collection))), CollectionAccess.Channels_, roleImpl.Channels_, CollectionAccess.ChannelInvalSeq, roleImpl.ChannelInvalSeq, CollectionAccess.ChannelHistory_, roleImpl.ChannelHistory_
+//@   modifies c03Computed, roleImpl.CollectionsAccess, elems(prColls(princ)), elems(prColls(princ)[scope]), elems(pcaHistory(rcCA(princ, scope, collection))), CollectionAccess.Channels_, roleImpl.Channels_, CollectionAccess.ChannelInvalSeq, roleImpl.ChannelInvalSeq, CollectionAccess.ChannelHistory_, roleImpl.ChannelHistory_, elems(channels.TimedSet), GrantHistorySequencePair.StartSeq
+//@   ensures[ts-frame]  tsFrame()
 //@   ensures[valid]     isNilErr(result) ==> pcaInvalSeq(rcCA(princ, scope, collection)) == 0 && pcaChannelsRaw(rcCA(princ, scope, collection)) != nil
 //@   ensures[public]    isNilErr(result) ==> (publicCh() in pcaChannelsRaw(rcCA(princ, scope, collection)))
 //@   ensures[explicit]  isNilErr(result) ==> (forall k string :: {k in pcaExplicit(rcCA(princ, scope, collection))} (k in pcaExplicit(rcCA(princ, scope, collection))) ==> (k in pcaChannelsRaw(rcCA(princ, scope, collection))))
@@ -202,7 +203,7 @@ package auth
 //@ func Authenticator.RebuildRoles
 //@   safety on
 //@   requires auth != nil && usrKnown(user)
-//@   modifies c03ComputedRoles, c03ComputedRoleKeys, unbox(user, *userImpl).RolesSince_, unbox(user, *userImpl).roles, unbox(user, *userImpl).RoleInvalSeq, unbox(user, *userImpl).RoleHistory_, elems(unbox(user, *userImpl).RoleHistory_), elems(c03ComputedRoles)
+//@   modifies c03ComputedRoles, c03ComputedRoleKeys, unbox(user, *userImpl).RolesSince_, unbox(user, *userImpl).roles, unbox(user, *userImpl).RoleInvalSeq, unbox(user, *userImpl).RoleHistory_, elems(unbox(user, *userImpl).RoleHistory_), elems(c03ComputedRoles), GrantHistorySequencePair.StartSeq
 //@   ensures[valid]    isNilErr(result) ==> unbox(user, *userImpl).RoleInvalSeq == 0 && unbox(user, *userImpl).RolesSince_ != nil && unbox(user, *userImpl).roles == nil
 //@   ensures[exact]    isNilErr(result) ==> (forall k string :: {k in unbox(user, *userImpl).RolesSince_} (k in unbox(user, *userImpl).RolesSince_) <==> (auth.channelComputer != nil && (k in c03ComputedRoleKeys)) || ((k in unbox(user, *userImpl).ExplicitRoles_) && contributes(unbox(user, *userImpl).ExplicitRoles_[k], 0)) || ((k in unbox(user, *userImpl).JWTRoles_) && contributes(unbox(user, *userImpl).JWTRoles_[k], 0)))
 //@   ensures[kept]     tsUnchanged(unbox(user, *userImpl).ExplicitRoles_) && tsUnchanged(unbox(user, *userImpl).JWTRoles_) && unbox(user, *userImpl).ExplicitRoles_ == old(unbox(user, *userImpl).ExplicitRoles_) && unbox(user, *userImpl).JWTRoles_ == old(unbox(user, *userImpl).JWTRoles_)
@@ -238,18 +239,18 @@ package auth
 //@ func userImpl.InheritedCollectionChannels
 //@   safety on
 //@   requires user != nil
-//@   modifies user.roles, user.deletedRoles
+//@   modifies user.roles, user.deletedRoles, elems(channels.TimedSet)
 //@   ensures[load-err] result1 == rolesLoadErr(user) && (isNilErr(result1) <==> result0 != nil)
 //@   ensures[new]      isNilErr(result1) ==> !old(allocated(now(result0)))
 //@   ensures[members]  isNilErr(result1) ==> (forall k string :: {k in result0} (k in result0) <==> (k in user.roleImpl.CollectionChannels(scope, collection)) || (exists i int :: {userRoles(user)[i]} 0 <= i && i < len(userRoles(user)) && uRoleGives(user, scope, collection, i, k)))
-//@   ensures[frame]    forall m channels.TimedSet :: {tsUnchanged(m)} old(allocated(m)) ==> tsUnchanged(m)
+//@   ensures[frame]    tsFrame()
 //@   ensures[own-since]   isNilErr(result1) ==> (forall k string :: {result0[k]} (k in user.roleImpl.CollectionChannels(scope, collection)) && !(exists i int :: {userRoles(user)[i]} 0 <= i && i < len(userRoles(user)) && uRoleGives(user, scope, collection, i, k)) ==> result0[k].Sequence == user.roleImpl.CollectionChannels(scope, collection)[k].Sequence)
 //@   ensures[not-earlier] isNilErr(result1) ==> (forall k string :: {result0[k]} (k in result0) && !(k in user.roleImpl.CollectionChannels(scope, collection)) ==> (exists i int :: {userRoles(user)[i]} 0 <= i && i < len(userRoles(user)) && uRoleGives(user, scope, collection, i, k) && (uRoleCh(user, scope, collection, i)[k].VbNo != nil || result0[k].Sequence >= uRoleSince(user, i))))
 //@   loop 1 invariant[own-since]   forall k string :: {channels[k]} (k in user.roleImpl.CollectionChannels(scope, collection)) && !(exists i int :: {userRoles(user)[i]} 0 <= i && i <= #index && uRoleGives(user, scope, collection, i, k)) ==> channels[k].Sequence == user.roleImpl.CollectionChannels(scope, collection)[k].Sequence
 //@   loop 1 invariant[not-earlier] forall k string :: {channels[k]} (k in channels) && !(k in user.roleImpl.CollectionChannels(scope, collection)) ==> (exists i int :: {userRoles(user)[i]} 0 <= i && i <= #index && uRoleGives(user, scope, collection, i, k) && (uRoleCh(user, scope, collection, i)[k].VbNo != nil || channels[k].Sequence >= uRoleSince(user, i)))
 //@   loop 1 invariant[roles]   roles == userRoles(user) && rolesWF(user) && isNilErr(rolesLoadErr(user)) && #index < len(roles)
 //@   loop 1 invariant[fresh]   channels != nil && !old(allocated(now(channels)))
-//@   loop 1 invariant[frame]   forall m channels.TimedSet :: {tsUnchanged(m)} old(allocated(m)) ==> tsUnchanged(m)
+//@   loop 1 invariant[frame]   tsFrame()
 //@   loop 1 invariant[members] forall k string :: {k in channels} (k in channels) <==> (k in user.roleImpl.CollectionChannels(scope, collection)) || (exists i int :: {userRoles(user)[i]} 0 <= i && i <= #index && uRoleGives(user, scope, collection, i, k))
 
 
@@ -257,16 +258,16 @@ package auth
 //@ func userImpl.inheritedChannels
 //@   safety on
 //@   requires user != nil
-//@   modifies user.roles, user.deletedRoles
+//@   modifies user.roles, user.deletedRoles, elems(channels.TimedSet)
 //@   ensures[load-err] result1 == rolesLoadErr(user) && (isNilErr(result1) <==> result0 != nil)
 //@   ensures[new]      isNilErr(result1) ==> !old(allocated(now(result0)))
 //@   ensures[members]  isNilErr(result1) ==> (forall k string :: {k in result0} (k in result0) <==> (k in user.roleImpl.Channels()) || (exists i int :: {userRoles(user)[i]} 0 <= i && i < len(userRoles(user)) && uRoleGives(user, base.DefaultScope, base.DefaultCollection, i, k)))
-//@   ensures[frame]    forall m channels.TimedSet :: {tsUnchanged(m)} old(allocated(m)) ==> tsUnchanged(m)
+//@   ensures[frame]    tsFrame()
 //@   ensures[own-since]   isNilErr(result1) ==> (forall k string :: {result0[k]} (k in user.roleImpl.Channels()) && !(exists i int :: {userRoles(user)[i]} 0 <= i && i < len(userRoles(user)) && uRoleGives(user, base.DefaultScope, base.DefaultCollection, i, k)) ==> result0[k].Sequence == user.roleImpl.Channels()[k].Sequence)
 //@   ensures[not-earlier] isNilErr(result1) ==> (forall k string :: {result0[k]} (k in result0) && !(k in user.roleImpl.Channels()) ==> (exists i int :: {userRoles(user)[i]} 0 <= i && i < len(userRoles(user)) && uRoleGives(user, base.DefaultScope, base.DefaultCollection, i, k) && (uRoleCh(user, base.DefaultScope, base.DefaultCollection, i)[k].VbNo != nil || result0[k].Sequence >= uRoleSince(user, i))))
 //@   loop 1 invariant[own-since]   forall k string :: {channels[k]} (k in user.roleImpl.Channels()) && !(exists i int :: {userRoles(user)[i]} 0 <= i && i <= #index && uRoleGives(user, base.DefaultScope, base.DefaultCollection, i, k)) ==> channels[k].Sequence == user.roleImpl.Channels()[k].Sequence
 //@   loop 1 invariant[not-earlier] forall k string :: {channels[k]} (k in channels) && !(k in user.roleImpl.Channels()) ==> (exists i int :: {userRoles(user)[i]} 0 <= i && i <= #index && uRoleGives(user, base.DefaultScope, base.DefaultCollection, i, k) && (uRoleCh(user, base.DefaultScope, base.DefaultCollection, i)[k].VbNo != nil || channels[k].Sequence >= uRoleSince(user, i)))
 //@   loop 1 invariant[roles]   roles == userRoles(user) && rolesWF(user) && isNilErr(rolesLoadErr(user)) && #index < len(roles)
 //@   loop 1 invariant[fresh]   channels != nil && !old(allocated(now(channels)))
-//@   loop 1 invariant[frame]   forall m channels.TimedSet :: {tsUnchanged(m)} old(allocated(m)) ==> tsUnchanged(m)
+//@   loop 1 invariant[frame]   tsFrame()
 //@   loop 1 invariant[members] forall k string :: {k in channels} (k in channels) <==> (k in user.roleImpl.Channels()) || (exists i int :: {userRoles(user)[i]} 0 <= i && i <= #index && uRoleGives(user, base.DefaultScope, base.DefaultCollection, i, k))
